@@ -8,7 +8,7 @@ import Gp.Lemmas.SBuf
   proof machinery.
 -/
 namespace Gp.Eth
-open Gp Gp.SBuf Gp.Gen.Eth
+open Gp Gp.SBuf Gp.C18 Gp.Gen.Eth
 
 /-! ## 1. Definitions used in property statements -/
 
@@ -157,5 +157,606 @@ theorem Dot1Q.decode_long (old : Dot1Q) (d : GSlice) (h : 4 ≤ d.len) :
   rw [GSlice.slice_ok d 0 4 (by omega) (by omega), Res.bind_ok]
   rw [GSlice.sliceFrom_ok d 4 h, Res.bind_ok]
   simp only [List.drop_zero, Nat.sub_zero, pure, dot1qDecSpec]
+
+theorem Ethernet.decode_vis (old : Ethernet) (v foreign : Bytes) (h : 14 ≤ v.length) :
+    old.decodeFromBytes { vis := v, tail := foreign } = .ok (ethDecSpec v) :=
+  Ethernet.decode_long old { vis := v, tail := foreign } h
+
+theorem Dot1Q.decode_vis (old : Dot1Q) (v foreign : Bytes) (h : 4 ≤ v.length) :
+    old.decodeFromBytes { vis := v, tail := foreign } = .ok (dot1qDecSpec v) :=
+  Dot1Q.decode_long old { vis := v, tail := foreign } h
+
+/-! ## 4. SerializeTo = its functional specification, on every buffer satisfying the C18 invariant -/
+
+theorem fill_at (b : SBuf) (h : Inv b) (w : Win) (k : Nat) (vs : Bytes)
+    (hg : w.gen = b.gen) (ho : w.off = b.start + k) (hk : k + vs.length ≤ (contents b).length) :
+    contents (fill b w vs) = (contents b).take k ++ vs ++ (contents b).drop (k + vs.length) ∧
+    Inv (fill b w vs) ∧ (fill b w vs).start = b.start ∧ (fill b w vs).gen = b.gen := by
+  have hcl := contents_length b h
+  have h' := h
+  obtain ⟨i1, i2, i3⟩ := h
+  have h1 : b.start ≤ w.off := by omega
+  have h2 : w.off + vs.length ≤ b.len := by omega
+  refine ⟨?_, inv_fill' b w vs h' (by omega), (fill_fields b w vs).1, (fill_fields b w vs).2.2.2.1⟩
+  rw [fill_contents b w vs h' hg h1 h2]
+  have : w.off - b.start = k := by omega
+  rw [this]
+
+theorem splice3 (c d s e : Bytes) (hd : d.length = 6) (hs : s.length = 6) (he : e.length = 2) :
+    let c2 := c.take 0 ++ d ++ c.drop (0 + d.length)
+    let c3 := c2.take 6 ++ s ++ c2.drop (6 + s.length)
+    c3.take 12 ++ e ++ c3.drop (12 + e.length) = d ++ s ++ e ++ c.drop 14 := by
+  intro c2 c3
+  have e2 : c2 = d ++ c.drop 6 := by simp [c2, hd]
+  have e3 : c3 = d ++ s ++ c.drop 12 := by
+    simp only [c3, e2, hs]
+    rw [List.take_left' hd, List.drop_append, hd]
+    simp [List.drop_drop, List.drop_of_length_le, hd]
+  rw [e3, he]
+  have hds : (d ++ s).length = 12 := by simp [hd, hs]
+  rw [List.take_left' hds, List.drop_append, hds]
+  simp [List.drop_drop, List.drop_of_length_le, hds]
+
+theorem putBe16_length (v : Nat) : (putBe16 v).length = 2 := rfl
+
+/-- ethernet.go:76-94: PrependBytes(14), the two `copy`s and PutUint16(bytes[12:], v) put exactly
+    `dst ++ src ++ be16 v` in front of the payload, for every buffer state. -/
+theorem eth_header (b : SBuf) (h : Inv b) (d s : Bytes) (hd : d.length = 6) (hs : s.length = 6) :
+    ∃ w6 w12, winFrom (prepend b 14).2 6 = .ok w6 ∧ winFrom (prepend b 14).2 12 = .ok w12 ∧
+      Inv (copyTo (copyTo (prepend b 14).1 (prepend b 14).2 d) w6 s) ∧
+      ∀ v, ∃ b4,
+        putUint16 (copyTo (copyTo (prepend b 14).1 (prepend b 14).2 d) w6 s) w12 v = .ok b4 ∧
+        Inv b4 ∧ contents b4 = d ++ s ++ putBe16 v ++ contents b := by
+  have hi1 := inv_prepend' b 14 h
+  have hn : (prepend b 14).2.n = 14 := rfl
+  have hgen : (prepend b 14).2.gen = (prepend b 14).1.gen := rfl
+  have hoff : (prepend b 14).2.off = (prepend b 14).1.start := rfl
+  have hlen := prepend_contents_length b 14 h
+  have hdrop := prepend_contents_drop b 14 h
+  generalize prepend b 14 = r at hi1 hn hgen hoff hlen hdrop
+  obtain ⟨b1, w⟩ := r
+  simp only at hi1 hn hgen hoff hlen hdrop
+  refine ⟨{ gen := w.gen, off := w.off + 6, n := w.n - 6 }, { gen := w.gen, off := w.off + 12, n := w.n - 12 },
+    by simp [winFrom, hn], by simp [winFrom, hn], ?_⟩
+  have t1 : d.take w.n = d := List.take_of_length_le (by omega)
+  have t2 : s.take (w.n - 6) = s := List.take_of_length_le (by omega)
+  simp only [copyTo, t1, t2]
+  obtain ⟨c2, i2, s2, g2⟩ := fill_at b1 hi1 w 0 d hgen (by omega) (by omega)
+  have l2 : (contents (fill b1 w d)).length = (contents b1).length := by
+    rw [c2]; simp [hd]; omega
+  obtain ⟨c3, i3, s3, g3⟩ := fill_at (fill b1 w d) i2 { gen := w.gen, off := w.off + 6, n := w.n - 6 } 6 s
+    (by simp only; omega) (by simp only; omega) (by omega)
+  have l3 : (contents (fill (fill b1 w d) { gen := w.gen, off := w.off + 6, n := w.n - 6 } s)).length
+      = (contents b1).length := by
+    rw [c3]; simp [hs]; omega
+  refine ⟨i3, ?_⟩
+  intro v
+  have hput : putUint16 (fill (fill b1 w d) { gen := w.gen, off := w.off + 6, n := w.n - 6 } s)
+      { gen := w.gen, off := w.off + 12, n := w.n - 12 } v = .ok (fill (fill (fill b1 w d)
+        { gen := w.gen, off := w.off + 6, n := w.n - 6 } s) { gen := w.gen, off := w.off + 12, n := w.n - 12 } (putBe16 v)) := by
+    simp [putUint16, hn]
+  obtain ⟨c4, i4, -, -⟩ := fill_at _ i3 { gen := w.gen, off := w.off + 12, n := w.n - 12 } 12 (putBe16 v)
+    (by simp only; omega) (by simp only; omega) (by rw [putBe16_length]; omega)
+  refine ⟨_, hput, i4, ?_⟩
+  rw [c4, c3, c2, splice3 (contents b1) d s (putBe16 v) hd hs rfl, hdrop]
+
+theorem lotsOfZeros_take (n : Nat) (h : n ≤ 1024) : lotsOfZeros.take n = zeros n := by
+  unfold lotsOfZeros zeros
+  rw [List.take_replicate, Nat.min_eq_left h]
+
+def pad60 (c : Bytes) : Bytes := if c.length < 60 then c ++ zeros (60 - c.length) else c
+
+/-- ethernet.go:95-104: the frame is padded to 60 bytes with zeros that are really written. -/
+theorem eth_pad (b : SBuf) (h : Inv b) (l : Ethernet) :
+    ∃ o, Ethernet.serializeTo.pad b l = .ok o ∧ o.layer = l ∧ o.err = false ∧ Inv o.buf ∧
+      contents o.buf = pad60 (contents b) := by
+  unfold Ethernet.serializeTo.pad pad60
+  by_cases hlt : (contents b).length < 60
+  · simp only [hlt, if_true]
+    have hi := inv_append' b (60 - (contents b).length) h
+    have hn : (append b (60 - (contents b).length)).2.n = 60 - (contents b).length := rfl
+    have hgen : (append b (60 - (contents b).length)).2.gen = (append b (60 - (contents b).length)).1.gen := rfl
+    have hoff : (append b (60 - (contents b).length)).2.off = b.len := rfl
+    have hstart := (append_fields b (60 - (contents b).length)).1
+    have hlen := append_contents_length b (60 - (contents b).length) h
+    have htake := append_contents_take b (60 - (contents b).length) h
+    have hcl := contents_length b h
+    have hsl : b.start ≤ b.len := h.1
+    generalize append b (60 - (contents b).length) = r at hi hn hgen hoff hstart hlen htake
+    obtain ⟨b5, w⟩ := r
+    simp only at hi hn hgen hoff hstart hlen htake
+    refine ⟨_, rfl, rfl, rfl, ?_⟩
+    simp only [copyTo, hn]
+    rw [lotsOfZeros_take _ (by omega)]
+    obtain ⟨c, i, -, -⟩ := fill_at b5 hi w (contents b).length (zeros (60 - (contents b).length)) hgen
+      (by omega) (by rw [zeros_length]; omega)
+    refine ⟨i, ?_⟩
+    rw [c, htake, zeros_length, List.drop_of_length_le (by omega), List.append_nil]
+  · simp only [hlt, if_false]
+    exact ⟨_, rfl, rfl, rfl, h, rfl⟩
+
+/-- Functional specification of a SerializeTo call: the receiver afterwards, whether an error was
+    returned, and (when not) the bytes the buffer then holds. -/
+structure SerSpec (L : Type) where
+  layer : L
+  err   : Bool
+  bytes : Bytes
+  deriving Repr, DecidableEq
+
+/-- What `Ethernet.SerializeTo` (with proposed_fixes/leth-1) does, as a function of the layer, the
+    payload already in the buffer and FixLengths. -/
+def ethSerSpec (l : Ethernet) (p : Bytes) (fix : Bool) : SerSpec Ethernet :=
+  if l.dstMAC.length ≠ 6 then { layer := l, err := true, bytes := [] }
+  else if l.srcMAC.length ≠ 6 then { layer := l, err := true, bytes := [] }
+  else if l.length ≠ 0 ∨ l.ethernetType = ethernetTypeLLC then
+    if l.ethernetType ≠ ethernetTypeLLC then { layer := l, err := true, bytes := [] }
+    else
+      let l' := if fix then { l with length := p.length % 65536 } else l
+      if l'.length > 0x0600 then { layer := l', err := true, bytes := [] }
+      else { layer := l', err := false, bytes := pad60 (l.dstMAC ++ l.srcMAC ++ putBe16 l'.length ++ p) }
+  else { layer := l, err := false, bytes := pad60 (l.dstMAC ++ l.srcMAC ++ putBe16 l.ethernetType ++ p) }
+
+/-- Refinement: on every buffer satisfying the C18 invariant, `Ethernet.serializeTo` returns
+    (never panics), with exactly the receiver / error / bytes of `ethSerSpec`. -/
+theorem eth_serializeTo_refines (l : Ethernet) (b : SBuf) (fix csum : Bool) (h : Inv b) :
+    ∃ o, l.serializeTo b fix csum = .ok o ∧ Inv o.buf ∧
+      o.layer = (ethSerSpec l (SBuf.contents b) fix).layer ∧ o.err = (ethSerSpec l (SBuf.contents b) fix).err ∧
+      ((ethSerSpec l (SBuf.contents b) fix).err = false →
+        SBuf.contents o.buf = (ethSerSpec l (SBuf.contents b) fix).bytes) := by
+  unfold Ethernet.serializeTo ethSerSpec
+  by_cases hd : l.dstMAC.length ≠ 6
+  · simp only [if_pos hd]; exact ⟨_, rfl, h, rfl, rfl, fun hh => by cases hh⟩
+  by_cases hs : l.srcMAC.length ≠ 6
+  · simp only [if_neg hd, if_pos hs]; exact ⟨_, rfl, h, rfl, rfl, fun hh => by cases hh⟩
+  simp only [if_neg hd, if_neg hs]
+  have hd' : l.dstMAC.length = 6 := by omega
+  have hs' : l.srcMAC.length = 6 := by omega
+  obtain ⟨w6, w12, e6, e12, hi2, hput⟩ := eth_header b h l.dstMAC l.srcMAC hd' hs'
+  generalize prepend b 14 = r at e6 e12 hi2 hput
+  obtain ⟨b1, w⟩ := r
+  simp only at e6 e12 hi2 hput
+  simp only [e6, e12, Res.bind_ok]
+  by_cases hA : l.length ≠ 0 ∨ l.ethernetType = ethernetTypeLLC
+  · simp only [if_pos hA]
+    by_cases hT : l.ethernetType ≠ ethernetTypeLLC
+    · simp only [if_pos hT, pure]; exact ⟨_, rfl, hi2, rfl, rfl, fun hh => by cases hh⟩
+    · simp only [if_neg hT]
+      generalize hl' : (if fix = true then ({ l with length := (SBuf.contents b).length % 65536 } : Ethernet) else l) = l'
+      have hmac : l'.dstMAC = l.dstMAC ∧ l'.srcMAC = l.srcMAC := by
+        subst hl'; cases fix <;> exact ⟨rfl, rfl⟩
+      by_cases hL : l'.length > 1536
+      · simp only [if_pos hL, pure]; exact ⟨_, rfl, hi2, rfl, rfl, fun hh => by cases hh⟩
+      · simp only [if_neg hL]
+        obtain ⟨b4, hb4, i4, c4⟩ := hput l'.length
+        rw [hb4, Res.bind_ok]
+        obtain ⟨o, ho, ol, oe, oi, oc⟩ := eth_pad b4 i4 l'
+        exact ⟨o, ho, oi, ol, oe, fun _ => by rw [oc, c4]⟩
+  · simp only [if_neg hA]
+    obtain ⟨b4, hb4, i4, c4⟩ := hput l.ethernetType
+    rw [hb4, Res.bind_ok]
+    obtain ⟨o, ho, ol, oe, oi, oc⟩ := eth_pad b4 i4 l
+    exact ⟨o, ho, oi, ol, oe, fun _ => by rw [oc, c4]⟩
+
+/-- `uint16(d.Priority)<<13 | d.VLANIdentifier`, `|= 0x1000` when DropEligible. -/
+def dot1qFirst (l : Dot1Q) : Nat :=
+  let fb := ((l.priority <<< 13) % 65536) ||| l.vlan
+  if l.dropEligible then fb ||| 0x1000 else fb
+
+def dot1qSerSpec (l : Dot1Q) (p : Bytes) : SerSpec Dot1Q :=
+  if l.vlan > 0xFFF then { layer := l, err := true, bytes := [] }
+  else { layer := l, err := false, bytes := putBe16 (dot1qFirst l) ++ putBe16 l.type ++ p }
+
+theorem splice2 (c x y : Bytes) (hx : x.length = 2) (hy : y.length = 2) :
+    let c2 := c.take 0 ++ x ++ c.drop (0 + x.length)
+    c2.take 2 ++ y ++ c2.drop (2 + y.length) = x ++ y ++ c.drop 4 := by
+  intro c2
+  have e2 : c2 = x ++ c.drop 2 := by simp [c2, hx]
+  rw [e2, hy, List.take_left' hx, List.drop_append, hx]
+  simp [List.drop_drop, List.drop_of_length_le, hx]
+
+theorem dot1q_serializeTo_refines (l : Dot1Q) (b : SBuf) (fix csum : Bool) (h : Inv b) :
+    ∃ o, l.serializeTo b fix csum = .ok o ∧ Inv o.buf ∧
+      o.layer = (dot1qSerSpec l (SBuf.contents b)).layer ∧ o.err = (dot1qSerSpec l (SBuf.contents b)).err ∧
+      ((dot1qSerSpec l (SBuf.contents b)).err = false →
+        SBuf.contents o.buf = (dot1qSerSpec l (SBuf.contents b)).bytes) := by
+  unfold Dot1Q.serializeTo dot1qSerSpec
+  have hi1 := inv_prepend' b 4 h
+  have hn : (prepend b 4).2.n = 4 := rfl
+  have hgen : (prepend b 4).2.gen = (prepend b 4).1.gen := rfl
+  have hoff : (prepend b 4).2.off = (prepend b 4).1.start := rfl
+  have hlen := prepend_contents_length b 4 h
+  have hdrop := prepend_contents_drop b 4 h
+  generalize prepend b 4 = r at hi1 hn hgen hoff hlen hdrop
+  obtain ⟨b1, w⟩ := r
+  simp only at hi1 hn hgen hoff hlen hdrop
+  simp only [pure]
+  by_cases hv : l.vlan > 0xFFF
+  · simp only [if_pos hv]; exact ⟨_, rfl, hi1, rfl, rfl, fun hh => by cases hh⟩
+  · simp only [if_neg hv]
+    have efb : (if l.dropEligible = true then (l.priority <<< 13 % 65536 ||| l.vlan) ||| 4096
+        else l.priority <<< 13 % 65536 ||| l.vlan) = dot1qFirst l := rfl
+    rw [efb]
+    generalize dot1qFirst l = fb
+    obtain ⟨c2, i2, s2, g2⟩ := fill_at b1 hi1 w 0 (putBe16 fb) hgen (by omega) (by rw [putBe16_length]; omega)
+    have l2 : (SBuf.contents (fill b1 w (putBe16 fb))).length = (SBuf.contents b1).length := by
+      rw [c2]; simp [putBe16_length]; omega
+    have p1 : putUint16 b1 w fb = .ok (fill b1 w (putBe16 fb)) := by simp [putUint16, hn]
+    have w2 : winFrom w 2 = .ok { gen := w.gen, off := w.off + 2, n := w.n - 2 } := by simp [winFrom, hn]
+    rw [p1, Res.bind_ok, w2, Res.bind_ok]
+    have p2 : putUint16 (fill b1 w (putBe16 fb)) { gen := w.gen, off := w.off + 2, n := w.n - 2 } l.type
+        = .ok (fill (fill b1 w (putBe16 fb)) { gen := w.gen, off := w.off + 2, n := w.n - 2 } (putBe16 l.type)) := by
+      simp [putUint16, hn]
+    rw [p2, Res.bind_ok]
+    obtain ⟨c3, i3, -, -⟩ := fill_at _ i2 { gen := w.gen, off := w.off + 2, n := w.n - 2 } 2 (putBe16 l.type)
+      (by simp only; omega) (by simp only; omega) (by rw [putBe16_length]; omega)
+    refine ⟨_, rfl, i3, rfl, rfl, fun _ => ?_⟩
+    rw [c3, c2, splice2 _ _ _ (putBe16_length _) (putBe16_length _), hdrop]
+
+/-! ## 5. Byte arithmetic -/
+
+theorem u8_toNat (n : Nat) : (u8 n).toNat = n % 256 := by
+  simp [u8]
+theorem be16_putBe16 (n : Nat) (h : n < 65536) : be16 (u8 (n / 256)) (u8 n) = n := by
+  unfold be16; rw [u8_toNat, u8_toNat]; omega
+set_option maxRecDepth 8000 in
+theorem byte_prio : ∀ x, x < 256 → (x &&& 0xE0) >>> 5 = x / 32 := by decide
+set_option maxRecDepth 8000 in
+theorem byte_dei : ∀ x, x < 256 → (x &&& 0x10 != 0) = decide (x / 16 % 2 = 1) := by decide
+
+/-- the first 16 bits of a 802.1Q tag as a sum -/
+theorem first_sum (prio vlan : Nat) (dei : Bool) (hp : prio ≤ 7) (hv : vlan ≤ 0xFFF) :
+    (let fb := ((prio <<< 13) % 65536) ||| vlan
+     if dei then fb ||| 0x1000 else fb) = prio * 8192 + (if dei then 4096 else 0) + vlan := by
+  have e1 : (prio <<< 13) % 65536 = 2 ^ 13 * prio := by
+    rw [Nat.shiftLeft_eq]; omega
+  simp only [e1]
+  cases dei
+  · simp only [Bool.false_eq_true, if_false]
+    rw [← Nat.two_pow_add_eq_or_of_lt (by omega)]; omega
+  · simp only [if_true]
+    rw [Nat.or_assoc]
+    have e2 : vlan ||| 0x1000 = 2 ^ 12 * 1 + vlan := by
+      rw [Nat.or_comm, Nat.two_pow_add_eq_or_of_lt (by omega)]
+    rw [e2, ← Nat.two_pow_add_eq_or_of_lt (by omega)]; omega
+
+/-! ## 6. Frames -/
+
+theorem u16At_append (pre rest : Bytes) (a b : UInt8) (i : Nat) (h : pre.length = i) :
+    u16At (pre ++ a :: b :: rest) i = be16 a b := by
+  subst h
+  simp [u16At, List.getD_eq_getElem?_getD]
+
+/-- What the Ethernet padding appends behind a payload: zeros up to 46 bytes. -/
+def padBody (p : Bytes) : Bytes := if p.length < 46 then p ++ zeros (46 - p.length) else p
+
+theorem pad60_hdr (hdr p : Bytes) (h : hdr.length = 14) : pad60 (hdr ++ p) = hdr ++ padBody p := by
+  unfold pad60 padBody
+  by_cases hp : p.length < 46
+  · have : (hdr ++ p).length < 60 := by simp [h]; omega
+    rw [if_pos this, if_pos hp, List.append_assoc]
+    have e : 60 - (hdr ++ p).length = 46 - p.length := by rw [List.length_append, h]; omega
+    rw [e]
+  · have : ¬ (hdr ++ p).length < 60 := by simp [h]; omega
+    rw [if_neg this, if_neg hp]
+
+/-- The parts `Ethernet.DecodeFromBytes` cuts out of a frame `dst ++ src ++ be16 ty ++ body`. -/
+theorem eth_frame_parts (d s body : Bytes) (ty : Nat) (hd : d.length = 6) (hs : s.length = 6)
+    (hty : ty < 65536) :
+    let v := d ++ s ++ putBe16 ty ++ body
+    v.take 6 = d ∧ (v.drop 6).take 6 = s ∧ u16At v 12 = ty ∧ v.take 14 = d ++ s ++ putBe16 ty ∧
+    v.drop 14 = body ∧ 14 ≤ v.length := by
+  intro v
+  have hds : (d ++ s).length = 12 := by simp [hd, hs]
+  have hh : (d ++ s ++ putBe16 ty).length = 14 := by simp [hd, hs, putBe16]
+  refine ⟨?_, ?_, ?_, ?_, ?_, ?_⟩
+  · simp only [v, List.append_assoc]; exact List.take_left' hd
+  · simp only [v, List.append_assoc]; rw [List.drop_left' hd]; exact List.take_left' hs
+  · simp only [v, putBe16]
+    rw [List.append_assoc (d ++ s), List.cons_append, List.cons_append, List.nil_append,
+      u16At_append _ _ _ _ 12 hds, be16_putBe16 ty hty]
+  · exact List.take_left' hh
+  · exact List.drop_left' hh
+  · simp only [v, List.length_append, hh]; omega
+
+/-! ## 7. Observable view of SerializeTo; spec-level laws -/
+
+/-- What a caller can observe of a SerializeTo call: the receiver afterwards, the error flag and,
+    when no error was returned, the bytes in the buffer (`Bytes()`); not the buffer's internals. -/
+def serView {L : Type} (r : Res (SerOut L)) : Res (SerSpec L) :=
+  match r with
+  | .ok o => .ok { layer := o.layer, err := o.err, bytes := if o.err then [] else SBuf.contents o.buf }
+  | .err k => .err k
+  | .panic k => .panic k
+
+theorem ethSerSpec_err_bytes (l : Ethernet) (p : Bytes) (fix : Bool)
+    (h : (ethSerSpec l p fix).err = true) : (ethSerSpec l p fix).bytes = [] := by
+  unfold ethSerSpec at h ⊢
+  by_cases hd : l.dstMAC.length ≠ 6
+  · simp only [if_pos hd]
+  by_cases hs : l.srcMAC.length ≠ 6
+  · simp only [if_neg hd, if_pos hs]
+  simp only [if_neg hd, if_neg hs] at h ⊢
+  by_cases hA : l.length ≠ 0 ∨ l.ethernetType = ethernetTypeLLC
+  · simp only [if_pos hA] at h ⊢
+    by_cases hT : l.ethernetType ≠ ethernetTypeLLC
+    · simp only [if_pos hT]
+    · simp only [if_neg hT] at h ⊢
+      generalize (if fix = true then ({ l with length := p.length % 65536 } : Ethernet) else l) = l' at h ⊢
+      by_cases hL : l'.length > 1536
+      · simp only [if_pos hL]
+      · simp only [if_neg hL] at h; cases h
+  · simp only [if_neg hA] at h; cases h
+
+theorem eth_serView (l : Ethernet) (b : SBuf) (fix csum : Bool) (h : Inv b) :
+    serView (l.serializeTo b fix csum) = .ok (ethSerSpec l (SBuf.contents b) fix) := by
+  obtain ⟨o, ho, -, hl, he, hb⟩ := eth_serializeTo_refines l b fix csum h
+  rw [ho]
+  unfold serView
+  simp only
+  congr 1
+  cases hs : (ethSerSpec l (SBuf.contents b) fix) with
+  | mk sl se sb =>
+    rw [hs] at hl he hb
+    simp only at hl he hb
+    cases se
+    · simp only [he, hl, hb rfl]; rfl
+    · have := ethSerSpec_err_bytes l (SBuf.contents b) fix (by rw [hs])
+      rw [hs] at this; simp only at this
+      simp only [he, hl, this]; rfl
+
+theorem ethSerSpec_idem (l : Ethernet) (p : Bytes) (fix : Bool) :
+    ethSerSpec (ethSerSpec l p fix).layer p fix = ethSerSpec l p fix := by
+  unfold ethSerSpec
+  by_cases hd : l.dstMAC.length ≠ 6
+  · simp only [if_pos hd]
+  by_cases hs : l.srcMAC.length ≠ 6
+  · simp only [if_neg hd, if_pos hs]
+  simp only [if_neg hd, if_neg hs]
+  by_cases hA : l.length ≠ 0 ∨ l.ethernetType = ethernetTypeLLC
+  · simp only [if_pos hA]
+    by_cases hT : l.ethernetType ≠ ethernetTypeLLC
+    · simp only [if_pos hT, if_neg hd, if_neg hs, if_pos hA]
+    · simp only [if_neg hT]
+      have hT' : l.ethernetType = ethernetTypeLLC := by
+        by_cases h : l.ethernetType = ethernetTypeLLC
+        · exact h
+        · exact absurd h hT
+      cases fix
+      · simp only [Bool.false_eq_true, if_false]
+        by_cases hL : l.length > 1536
+        · simp only [if_pos hL, if_neg hd, if_neg hs, if_pos hA, if_neg hT]
+        · simp only [if_neg hL, if_neg hd, if_neg hs, if_pos hA, if_neg hT]
+      · simp only [if_true]
+        have hA' : p.length % 65536 ≠ 0 ∨ l.ethernetType = ethernetTypeLLC := Or.inr hT'
+        by_cases hL : p.length % 65536 > 1536
+        · simp only [if_pos hL, if_neg hd, if_neg hs, if_pos hA', if_neg hT]
+        · simp only [if_neg hL, if_neg hd, if_neg hs, if_pos hA', if_neg hT]
+  · simp only [if_neg hA, if_neg hd, if_neg hs]
+
+theorem eth_serializeTo_no_panic (l : Ethernet) (b : SBuf) (fix csum : Bool) (k : PanicKind) :
+    l.serializeTo b fix csum ≠ .panic k := by
+  unfold Ethernet.serializeTo Ethernet.serializeTo.pad
+  have e6 : winFrom (prepend b 14).2 6 = .ok { gen := (prepend b 14).2.gen, off := (prepend b 14).2.off + 6, n := 8 } := rfl
+  have e12 : winFrom (prepend b 14).2 12 = .ok { gen := (prepend b 14).2.gen, off := (prepend b 14).2.off + 12, n := 2 } := rfl
+  generalize prepend b 14 = r at e6 e12
+  obtain ⟨b1, w⟩ := r
+  simp only at e6 e12
+  simp only [e6, e12, Res.bind_ok, putUint16, pure, Nat.lt_irrefl, if_false]
+  repeat' split
+  all_goals (intro h; cases h)
+
+/-! ## 8. Decoding serialized frames -/
+
+/-- Decoding a frame `dst ++ src ++ be16 ty ++ body` with an EtherType (ty ≥ 0x0600). -/
+theorem ethDecSpec_ethII (d s body : Bytes) (ty : Nat) (hd : d.length = 6) (hs : s.length = 6)
+    (hty : ty < 65536) (h6 : 0x0600 ≤ ty) :
+    ethDecSpec (d ++ s ++ putBe16 ty ++ body) =
+      { layer := { contents := d ++ s ++ putBe16 ty, payload := body, srcMAC := s, dstMAC := d,
+                   ethernetType := ty, length := 0 }, trunc := false, err := false } := by
+  obtain ⟨p1, p2, p3, p4, p5, -⟩ := eth_frame_parts d s body ty hd hs hty
+  unfold ethDecSpec
+  simp only [p1, p2, p3, p4, p5]
+  rw [if_neg (by omega)]
+
+/-- Decoding a frame `dst ++ src ++ be16 n ++ body` with an 802.3 length n ≤ |body|. -/
+theorem ethDecSpec_llc (d s body : Bytes) (n : Nat) (hd : d.length = 6) (hs : s.length = 6)
+    (hn : n < 0x0600) (hb : n ≤ body.length) :
+    ethDecSpec (d ++ s ++ putBe16 n ++ body) =
+      { layer := { contents := d ++ s ++ putBe16 n, payload := body.take n, srcMAC := s, dstMAC := d,
+                   ethernetType := ethernetTypeLLC, length := n }, trunc := false, err := false } := by
+  obtain ⟨p1, p2, p3, p4, p5, -⟩ := eth_frame_parts d s body n hd hs (by omega)
+  unfold ethDecSpec
+  simp only [p1, p2, p3, p4, p5]
+  rw [if_pos hn, if_neg (by omega)]
+
+theorem padBody_take (p : Bytes) : (padBody p).take p.length = p := by
+  unfold padBody; split
+  · exact List.take_left' rfl
+  · exact List.take_of_length_le (Nat.le_refl _)
+
+theorem padBody_length (p : Bytes) : p.length ≤ (padBody p).length := by
+  unfold padBody; split
+  · simp
+  · exact Nat.le_refl _
+
+theorem padBody_of_ge (p : Bytes) (h : 46 ≤ p.length) : padBody p = p := by
+  unfold padBody; rw [if_neg (by omega)]
+
+def wfDot1Q (l : Dot1Q) : Prop := l.priority ≤ 7 ∧ l.vlan ≤ 0xFFF ∧ l.type < 65536
+
+theorem dot1qFirst_sum (l : Dot1Q) (hp : l.priority ≤ 7) (hv : l.vlan ≤ 0xFFF) :
+    dot1qFirst l = l.priority * 8192 + (if l.dropEligible then 4096 else 0) + l.vlan :=
+  first_sum l.priority l.vlan l.dropEligible hp hv
+
+theorem dot1q_bits (prio vlan : Nat) (dei : Bool) (hp : prio ≤ 7) (hv : vlan ≤ 0xFFF) :
+    let fb := prio * 8192 + (if dei then 4096 else 0) + vlan
+    fb < 65536 ∧ ((u8 (fb / 256)).toNat &&& 0xE0) >>> 5 = prio ∧
+    ((u8 (fb / 256)).toNat &&& 0x10 != 0) = dei ∧ fb &&& 0x0FFF = vlan := by
+  intro fb
+  have hfb : fb < 65536 := by simp only [fb]; split <;> omega
+  have hb : (u8 (fb / 256)).toNat = fb / 256 := by rw [u8_toNat]; omega
+  have hx : fb / 256 < 256 := by omega
+  refine ⟨hfb, ?_, ?_, ?_⟩
+  · rw [hb, byte_prio _ hx]; simp only [fb]; split <;> omega
+  · rw [hb, byte_dei _ hx]
+    cases dei
+    · simp only [fb, Bool.false_eq_true, if_false, decide_eq_false_iff_not]; omega
+    · simp only [fb, if_true, decide_eq_true_eq]; omega
+  · have : (0x0FFF : Nat) = 2 ^ 12 - 1 := by decide
+    rw [this, Nat.and_two_pow_sub_one_eq_mod]; simp only [fb]; split <;> omega
+
+theorem dot1qDecSpec_frame (l : Dot1Q) (p : Bytes) (hw : wfDot1Q l) :
+    dot1qDecSpec (putBe16 (dot1qFirst l) ++ putBe16 l.type ++ p) =
+      { layer := { contents := putBe16 (dot1qFirst l) ++ putBe16 l.type, payload := p,
+                   priority := l.priority, dropEligible := l.dropEligible, vlan := l.vlan, type := l.type },
+        trunc := false, err := false } := by
+  obtain ⟨hp, hv, ht⟩ := hw
+  obtain ⟨hfb, b1, b2, b3⟩ := dot1q_bits l.priority l.vlan l.dropEligible hp hv
+  rw [← dot1qFirst_sum l hp hv] at hfb b1 b2 b3
+  generalize dot1qFirst l = fb at hfb b1 b2 b3
+  have hh : (putBe16 fb ++ putBe16 l.type).length = 4 := rfl
+  have e0 : (putBe16 fb ++ putBe16 l.type ++ p).getD 0 0 = u8 (fb / 256) := rfl
+  have e1 : u16At (putBe16 fb ++ putBe16 l.type ++ p) 0 = fb := by
+    have := u16At_append [] (putBe16 l.type ++ p) (u8 (fb / 256)) (u8 fb) 0 rfl
+    rw [be16_putBe16 fb hfb] at this
+    exact this
+  have e2 : u16At (putBe16 fb ++ putBe16 l.type ++ p) 2 = l.type := by
+    have := u16At_append (putBe16 fb) p (u8 (l.type / 256)) (u8 l.type) 2 rfl
+    rw [be16_putBe16 l.type ht] at this
+    exact this
+  unfold dot1qDecSpec
+  rw [e0, e1, e2, b1, b2, b3, List.take_left' hh, List.drop_left' hh]
+
+/-! ## 9. Well-formedness of decoded layers; Dot1Q views -/
+
+/-- In-range Ethernet field values: 6-byte addresses; either an 802.3 frame (EthernetType = LLC,
+    Length < 0x0600) or an Ethernet II frame (EtherType ≥ 0x0600 fitting 16 bits, Length = 0). -/
+def wfEth (l : Ethernet) : Prop :=
+  l.dstMAC.length = 6 ∧ l.srcMAC.length = 6 ∧
+  ((l.ethernetType = ethernetTypeLLC ∧ l.length < 0x0600) ∨
+   (0x0600 ≤ l.ethernetType ∧ l.ethernetType < 65536 ∧ l.length = 0))
+
+theorem ethDecSpec_wf (v : Bytes) (h : 14 ≤ v.length) :
+    wfEth (ethDecSpec v).layer ∧ (ethDecSpec v).err = false ∧
+    ((ethDecSpec v).layer.ethernetType = ethernetTypeLLC → (ethDecSpec v).layer.payload.length < 0x0600 ∧
+       ((ethDecSpec v).trunc = false → (ethDecSpec v).layer.payload.length = (ethDecSpec v).layer.length)) := by
+  have hty := u16At_lt v 12
+  unfold ethDecSpec wfEth
+  simp only
+  generalize u16At v 12 = ty at hty
+  have l1 : (v.take 6).length = 6 := by simp; omega
+  have l2 : ((v.drop 6).take 6).length = 6 := by simp; omega
+  by_cases h6 : ty < 0x0600
+  · rw [if_pos h6]
+    by_cases ht : (v.drop 14).length < ty
+    · rw [if_pos ht]
+      exact ⟨⟨l1, l2, Or.inl ⟨rfl, h6⟩⟩, rfl, fun _ => ⟨by simp only; omega, fun hh => by cases hh⟩⟩
+    · rw [if_neg ht]
+      refine ⟨⟨l1, l2, Or.inl ⟨rfl, h6⟩⟩, rfl, fun _ => ⟨?_, fun _ => ?_⟩⟩
+      · simp only [List.length_take]; omega
+      · simp only [List.length_take]; omega
+  · rw [if_neg h6]
+    refine ⟨⟨l1, l2, Or.inr ⟨(show 0x0600 ≤ ty by omega), hty, rfl⟩⟩, rfl, fun hh => ?_⟩
+    have hh' : ty = 0 := hh
+    omega
+
+theorem dot1qDecSpec_wf (v : Bytes) : wfDot1Q (dot1qDecSpec v).layer := by
+  unfold dot1qDecSpec wfDot1Q
+  simp only
+  have hx := (v.getD 0 0).toNat_lt
+  refine ⟨?_, ?_, u16At_lt v 2⟩
+  · rw [byte_prio _ hx]; omega
+  · have : (0x0FFF : Nat) = 2 ^ 12 - 1 := by decide
+    rw [this, Nat.and_two_pow_sub_one_eq_mod]; omega
+
+theorem dot1qSerSpec_err_bytes (l : Dot1Q) (p : Bytes) (h : (dot1qSerSpec l p).err = true) :
+    (dot1qSerSpec l p).bytes = [] := by
+  unfold dot1qSerSpec at h ⊢
+  by_cases hv : l.vlan > 0xFFF
+  · simp only [if_pos hv]
+  · simp only [if_neg hv] at h; cases h
+
+theorem dot1q_serView (l : Dot1Q) (b : SBuf) (fix csum : Bool) (h : Inv b) :
+    serView (l.serializeTo b fix csum) = .ok (dot1qSerSpec l (SBuf.contents b)) := by
+  obtain ⟨o, ho, -, hl, he, hb⟩ := dot1q_serializeTo_refines l b fix csum h
+  rw [ho]
+  unfold serView
+  simp only
+  congr 1
+  cases hs : (dot1qSerSpec l (SBuf.contents b)) with
+  | mk sl se sb =>
+    rw [hs] at hl he hb
+    simp only at hl he hb
+    cases se
+    · simp only [he, hl, hb rfl]; rfl
+    · have := dot1qSerSpec_err_bytes l (SBuf.contents b) (by rw [hs])
+      rw [hs] at this; simp only at this
+      simp only [he, hl, this]; rfl
+
+theorem dot1q_serializeTo_no_panic (l : Dot1Q) (b : SBuf) (fix csum : Bool) (k : PanicKind) :
+    l.serializeTo b fix csum ≠ .panic k := by
+  unfold Dot1Q.serializeTo
+  have e2 : winFrom (prepend b 4).2 2 = .ok { gen := (prepend b 4).2.gen, off := (prepend b 4).2.off + 2, n := 2 } := rfl
+  have hn : (prepend b 4).2.n = 4 := rfl
+  generalize prepend b 4 = r at e2 hn
+  obtain ⟨b1, w⟩ := r
+  simp only at e2 hn
+  have h42 : ¬ (4 < 2) := by omega
+  simp only [e2, Res.bind_ok, putUint16, pure, hn, Nat.lt_irrefl, if_false, h42]
+  repeat' split
+  all_goals (intro h; cases h)
+
+/-! ## 10. ≈, payload scope, and the specification on well-formed layers -/
+
+instance (l : Ethernet) : Decidable (wfEth l) := by unfold wfEth; infer_instance
+instance (l : Dot1Q) : Decidable (wfDot1Q l) := by unfold wfDot1Q; infer_instance
+
+/-- Field equivalence `≈` for Ethernet: all public fields; ignores BaseLayer.Contents/Payload. -/
+def EthEquiv (a b : Ethernet) : Prop :=
+  a.srcMAC = b.srcMAC ∧ a.dstMAC = b.dstMAC ∧ a.ethernetType = b.ethernetType ∧ a.length = b.length
+
+/-- Field equivalence `≈` for Dot1Q. -/
+def Dot1QEquiv (a b : Dot1Q) : Prop :=
+  a.priority = b.priority ∧ a.dropEligible = b.dropEligible ∧ a.vlan = b.vlan ∧ a.type = b.type
+
+/-- The payloads the protocol allows directly above Ethernet (DESIGN §5 C06 scope decision):
+    802.3 frames delimit the payload by their length field (which must stay below 0x0600); Ethernet
+    II frames are padded to 60 bytes on the wire, so a payload shorter than 46 bytes comes back with
+    the padding attached (`roundtrip_eth_pad`). -/
+def payloadOkEth (l : Ethernet) (p : Bytes) : Prop :=
+  if l.ethernetType = ethernetTypeLLC then p.length < 0x0600 else 46 ≤ p.length
+
+instance (l : Ethernet) (p : Bytes) : Decidable (payloadOkEth l p) := by unfold payloadOkEth; infer_instance
+
+/-- The layer after SerializeTo with FixLengths. -/
+def fixedEth (l : Ethernet) (p : Bytes) : Ethernet :=
+  if l.ethernetType = ethernetTypeLLC then { l with length := p.length } else l
+
+theorem ethSerSpec_llc (l : Ethernet) (p : Bytes) (hw : wfEth l) (hl : l.ethernetType = ethernetTypeLLC)
+    (hp : p.length < 0x0600) :
+    ethSerSpec l p true =
+      { layer := { l with length := p.length }, err := false,
+        bytes := l.dstMAC ++ l.srcMAC ++ putBe16 p.length ++ padBody p } := by
+  obtain ⟨hd, hs, -⟩ := hw
+  unfold ethSerSpec
+  have e : p.length % 65536 = p.length := Nat.mod_eq_of_lt (by omega)
+  rw [if_neg (by omega), if_neg (by omega), if_pos (Or.inr hl), if_neg (by simp [hl])]
+  simp only [if_true, e]
+  rw [if_neg (by omega), pad60_hdr _ _ (by simp [hd, hs, putBe16])]
+
+theorem ethSerSpec_ethII (l : Ethernet) (p : Bytes) (fix : Bool) (hw : wfEth l)
+    (h6 : 0x0600 ≤ l.ethernetType) :
+    ethSerSpec l p fix =
+      { layer := l, err := false, bytes := l.dstMAC ++ l.srcMAC ++ putBe16 l.ethernetType ++ padBody p } := by
+  obtain ⟨hd, hs, hk⟩ := hw
+  have hne : l.ethernetType ≠ ethernetTypeLLC := by
+    intro h; have : l.ethernetType = 0 := h; omega
+  have hl0 : l.length = 0 := by
+    rcases hk with ⟨h, -⟩ | ⟨-, -, h⟩
+    · exact absurd h hne
+    · exact h
+  unfold ethSerSpec
+  rw [if_neg (by omega), if_neg (by omega), if_neg (by simp [hl0, hne]),
+    pad60_hdr _ _ (by simp [hd, hs, putBe16])]
 
 end Gp.Eth
